@@ -14,7 +14,7 @@ from .. import gen, models, measure, estim, oracles
 ID = 'C08'
 RULE = ('random domain (2-5 attrs, <= 600 cells) x measurement class {empty, consistent with uniform (MD early exit), all-zero '
         'queries (L = 0), ordinary, boundary optimum (N = 1), single attribute, noise 1e-3..1e-6 (line search exhausted)} x solver {MD, RDA, IG} x iterations '
-        '{1,2,3,10,100,1000} x structural zeros on/off x total; plus every estimate() made inside runs of the four shipped mechanisms; every estimate() return is judged; distinct = content hash; '
+        '{1,2,3,10,100,1000} x structural zeros on/off x total; plus every estimate() made inside runs of the four shipped mechanisms; every estimate() return is judged, half of them a second time after synthetic_data() was drawn from them; distinct = content hash; '
         'non-trivial = always (the empty-measurement class is part of the quantifier)')
 ANCHORS = ['FactoredInference.estimate', 'FactoredInference.mirror_descent', 'FactoredInference.dual_averaging',
            'FactoredInference.interior_gradient', 'GraphicalModel.project', 'GraphicalModel.datavector', 'GraphicalModel.mle',
@@ -192,6 +192,12 @@ def run_case(case, ctx):
     eng, model = estim.estimate(dom, tuples, case['total'] if case['give_total'] else None, solver, case['iters'], zeros=case['zeros'],
                                 engine=engine)
     judge_model(ctx, model, attrs, shape)
+    if not ctx.failures and case['np_seed'] % 2 == 0 and float(model.total) >= 1.0:
+        # the returned model stays that distribution while it is being used: drawing records is a read-only use
+        with models.quiet(), np.errstate(all='ignore'):
+            model.synthetic_data(rows=(None if case['np_seed'] % 4 == 0 else 7))
+        ctx.tag('judged_again_after_synthetic_data')
+        judge_model(ctx, model, attrs, shape, what='after synthetic_data(): ')
 
 
 def _f9(case, failure):
